@@ -155,7 +155,11 @@ pub fn run(ctx: &Ctx) -> Report {
         let key = (c.spec as *const Spec as usize, c.probe);
         fresh.entry(key).or_insert_with(|| fresh_for(c.spec, c.probe));
     }
-    par_run(&cases, ctx.threads, |_, c, rep| {
+    let mut rep12 = Report::new();
+    if ctx.variant == "v3" && ctx.only_panel.as_deref().map(|p| p == "epd12in48b_v2").unwrap_or(true) {
+        crate::props::p12checks::c02(&mut rep12, ctx.tier_thorough);
+    }
+    let mut out = par_run(&cases, ctx.threads, |_, c, rep| {
         let spec = c.spec;
         let syms = syms(spec);
         let fr = &fresh[&(spec as *const Spec as usize, c.probe)];
@@ -193,5 +197,7 @@ pub fn run(ctx: &Ctx) -> Report {
                 });
             }
         }
-    })
+    });
+    out.merge(rep12);
+    out
 }
